@@ -113,8 +113,8 @@ def write_script(path, cmds):
 
 
 # ---------------------------------------------------------------------------------------------- optimizer scripts
-def lift_dof(D, idx):
-    return max(1, D - 1 - (idx % 2))
+def lift_dof(D, idx, pin=-1):
+    return 1 if idx == pin else max(1, D - 1 - (idx % 2))
 
 
 def lift_M(j, k):
@@ -132,11 +132,11 @@ def lift_physical(D, xi, idx, gain):
     return p
 
 
-def opt_layout(order, D, N, flags, sm):
+def opt_layout(order, D, N, flags, sm, pin=-1):
     """(number of decision variables, list of (point index, dof), list of derivative block names)"""
     s = (order + 1) // 2
     pts = [i for i in range(N + 1) if (0 < i < N) or (i == 0 and flags[0]) or (i == N and flags[4])]
-    dofs = [(i, D if sm == "id" else lift_dof(D, i)) for i in pts]
+    dofs = [(i, D if sm == "id" else lift_dof(D, i, pin)) for i in pts]
     blocks = []
     for nm, on, d in (("sv", flags[1], 1), ("sa", flags[2], 2), ("sj", flags[3], 3), ("ev", flags[5], 1), ("ea", flags[6], 2), ("ej", flags[7], 3)):
         if on and d <= s - 1:
